@@ -49,4 +49,23 @@ theorem o_po9 (s s' : St) : Inv s → s.opc = .po9 → stepO s = some s' → Inv
     tso_finish
   · simp at hs
 
+set_option maxHeartbeats 1000000 in
+theorem o_po5c (s s' : St) (t r) : Inv s → s.opc = .po5c t r → stepO s = some s' → Inv s' := by
+  intro h heq hs
+  cases h
+  simp only [stepO, heq] at hs
+  split at hs
+  all_goals (simp at hs; subst hs)
+  all_goals simp only [heq, ownerLocked, carry, resetting, ownerFlight] at *
+  all_goals tso_finish
+
+set_option maxHeartbeats 1000000 in
+theorem o_po5d (s s' : St) (r) : Inv s → s.opc = .po5d r → stepO s = some s' → Inv s' := by
+  intro h heq hs
+  cases h
+  simp only [stepO, heq] at hs
+  simp at hs; subst hs
+  simp only [heq, ownerLocked, carry, resetting, ownerFlight] at *
+  tso_finish
+
 end MythVerif.WsqTso
